@@ -54,9 +54,14 @@ func genC08(t *rapid.T) any {
 		rowCount++
 		return row
 	}
+	wide := rapid.IntRange(0, 4).Draw(t, "widelevels") == 0
 	var gen func(depth int, label string) []any
 	gen = func(depth int, label string) []any {
 		n := rapid.IntRange(0, 3).Draw(t, label+".n")
+		if depth > 1 && wide && rapid.IntRange(0, 2).Draw(t, label+".wide") == 0 {
+			// a level with many inner arrays (any count, not only the small ones)
+			n = rapid.IntRange(4, 13).Draw(t, label+".nwide")
+		}
 		out := []any{}
 		for i := 0; i < n; i++ {
 			l := fmt.Sprintf("%s.%d", label, i)
